@@ -16,9 +16,9 @@ func TestMain(m *testing.M) { kit.Main(m) }
 
 const rule = "provider populations with drawn qualifier in {no method, \"\", g1, g2, g3}, Primary / named / unnamed attributes x consumers with 1-4 fields (single or slice, qualifier set drawn from {\"\", g1, g2, g3, gX} or none, required or optional, optional-without-candidate fields placed before others); oracle = model checked per field (qualifier membership, unique Primary, else unique unnamed, ties accepted within the top rank); non-trivial = a holder with >=2 fields where a narrowing field follows an optional field without candidates, or a single point with >=3 qualified survivors; distinct by scenario shape"
 
-var kinds = []int{0, 1, 2, 2, 3, 3, 4, 6, 7, 8, 10, 13, 14, 20, 20, 21, 24, 24} // 13/14 zero-size, 20 zero-size with qualifier g1, 21 zero-size with g1 and Primary
-var names = []string{"n1", "n2", "n3", "n4", "g1", "g2", "gX"}                  // some custom names coincide with qualifier values
-var quals = []string{"", "g1", "g2", "g3", "g1", "g2", "G1", "g1"}              // includes a variant that differs in letter case only
+var kinds = []int{0, 1, 2, 2, 3, 3, 4, 6, 7, 8, 10, 13, 14, 20, 20, 21, 24, 24, 25, 25, 26, 26} // 13/14 zero-size, 20 zero-size with qualifier g1, 21 zero-size with g1 and Primary
+var names = []string{"n1", "n2", "n3", "n4", "g1", "g2", "gX"}                                  // some custom names coincide with qualifier values
+var quals = []string{"", "g1", "g2", "g3", "g1", "g2", "G1", "g1"}                              // includes a variant that differs in letter case only
 
 func genField(t *rapid.T, provs []pop.ProvSpec, forceEmptyOptional bool) pop.FieldSpec {
 	typ := pop.DrawFieldType(t, provs, rapid.IntRange(0, 2).Draw(t, "slice") == 0)
@@ -165,4 +165,14 @@ func dedup(xs []string) []string {
 		}
 	}
 	return out
+}
+
+// TestLazyAfterOtherContainer: lazy components are populated after ANOTHER container of this process has started
+// (same types, partly the same names): they are wired from their own container, completely.
+func TestLazyAfterOtherContainer(t *testing.T) {
+	kit.Rec.Rule(rule)
+	rapid.Check(t, func(t *rapid.T) {
+		desc, labels, nt := graph.LazyAfterOther(t, "C08", true)
+		kit.Rec.Case(desc, nt, labels...)
+	})
 }
